@@ -4,15 +4,15 @@ From Coq Require Import List ZArith Bool Lia.
 From YV Require Import Cond.Syntax Cond.Sem Cond.RuleSet.
 Import ListNotations.
 
-Lemma verdicts_from_length : forall tr data globals fast rules acc,
-  length (verdicts_from tr data globals fast rules acc) = (length acc + length rules)%nat.
+Lemma verdicts_from_length : forall tr data globals rules acc,
+  length (verdicts_from tr data globals rules acc) = (length acc + length rules)%nat.
 Proof.
-  intros tr data globals fast rules. induction rules as [|r t IH]; intros acc; cbn [verdicts_from length].
+  intros tr data globals rules. induction rules as [|r t IH]; intros acc; cbn [verdicts_from length].
   - lia.
   - rewrite IH, app_length. cbn [length]. lia.
 Qed.
-Lemma verdicts_length : forall tr data globals fast rules,
-  length (verdicts tr data globals fast rules) = length rules.
+Lemma verdicts_length : forall tr data globals rules,
+  length (verdicts tr data globals rules) = length rules.
 Proof. intros. unfold verdicts. rewrite verdicts_from_length. reflexivity. Qed.
 
 Lemma in_combine_nth : forall (A B : Type) (l : list A) (l' : list B) i a b,
@@ -40,15 +40,15 @@ Proof.
   intros E. rewrite E in Hok. rewrite Nat.eqb_refl in Hok. discriminate.
 Qed.
 
-Corollary global_fail_suppresses_run : forall tr data globals fast rules g rg i,
+Corollary global_fail_suppresses_run : forall tr data globals rules g rg i,
   nth_error rules g = Some rg -> r_global rg = true ->
-  nth_error (verdicts tr data globals fast rules) g = Some false ->
-  In i (fst (run tr data globals fast rules)) \/ In i (snd (run tr data globals fast rules)) ->
+  nth_error (verdicts tr data globals rules) g = Some false ->
+  In i (fst (run tr data globals rules)) \/ In i (snd (run tr data globals rules)) ->
   r_ns (nth i rules (mkRule 0 false false [] (EBool false))) <> r_ns rg.
 Proof.
-  intros tr data globals fast rules g rg i Hg Hglob Hv Hin.
+  intros tr data globals rules g rg i Hg Hglob Hv Hin.
   unfold run in Hin. cbn [fst snd] in Hin.
-  assert (M : In i (matching_of rules (verdicts tr data globals fast rules))).
+  assert (M : In i (matching_of rules (verdicts tr data globals rules))).
   { destruct Hin as [H | H]; [exact H|]. unfold reported_of in H. apply filter_In in H. tauto. }
   eapply global_fail_suppresses; try eassumption. apply verdicts_length.
 Qed.
@@ -72,16 +72,16 @@ Qed.
 Definition set_private (b : bool) (r : rule) : rule :=
   mkRule (r_ns r) (r_global r) b (r_pats r) (r_cond r).
 
-Lemma verdicts_from_ignore_private : forall tr data globals fast (flags : rule -> bool) rules acc,
-  verdicts_from tr data globals fast (map (fun r => set_private (flags r) r) rules) acc
-  = verdicts_from tr data globals fast rules acc.
+Lemma verdicts_from_ignore_private : forall tr data globals (flags : rule -> bool) rules acc,
+  verdicts_from tr data globals (map (fun r => set_private (flags r) r) rules) acc
+  = verdicts_from tr data globals rules acc.
 Proof.
-  intros tr data globals fast flags rules. induction rules as [|r t IH]; intros acc; [reflexivity|].
+  intros tr data globals flags rules. induction rules as [|r t IH]; intros acc; [reflexivity|].
   cbn [map verdicts_from]. rewrite IH. reflexivity.
 Qed.
-Theorem verdicts_ignore_private : forall tr data globals fast flags rules,
-  verdicts tr data globals fast (map (fun r => set_private (flags r) r) rules)
-  = verdicts tr data globals fast rules.
+Theorem verdicts_ignore_private : forall tr data globals flags rules,
+  verdicts tr data globals (map (fun r => set_private (flags r) r) rules)
+  = verdicts tr data globals rules.
 Proof. intros. apply verdicts_from_ignore_private. Qed.
 
 (* evaluation is a function of (rules, buffer, external variables) *)
